@@ -308,3 +308,24 @@ func init() {
 		ProviderKind{Name: "PSN", DefName: "verif/harness/zoo/twin", HasQual: true, New: newTwinPlain},   // 26
 	)
 }
+
+// PMAP / PSLICE: components that are pointers to NAMED NON-STRUCT types (a named map, a named slice): they have
+// no fields to scan but are components like any other (IA, IAB).
+type PMAP map[string]*Beh
+type PSLICE []*Beh
+
+func (p *PMAP) Beh() *Beh        { return (*p)["b"] }
+func (p *PMAP) Naming() string   { return (*p)["b"].Alias }
+func (*PMAP) isA()               {}
+func (*PMAP) isAB()              {}
+func (p *PSLICE) Beh() *Beh      { return (*p)[0] }
+func (p *PSLICE) Naming() string { return (*p)[0].Alias }
+func (*PSLICE) isA()             {}
+func (*PSLICE) isB()             {}
+
+func init() {
+	ExtraProviderKinds = append(ExtraProviderKinds,
+		ProviderKind{Name: "PMAP", New: func(b *Beh) any { c := &PMAP{"b": b}; b.Self = c; return c }}, // 27
+		ProviderKind{Name: "PSLICE", New: func(b *Beh) any { c := &PSLICE{b}; b.Self = c; return c }},  // 28
+	)
+}
